@@ -292,7 +292,7 @@ def run(ctx):
     rule_len(ctx, py)
     rule_units_ops(ctx, py)
     rule_cmp_exact(ctx, py)
-    from .. import truth
-    truth.rule(ctx, "C05.TRUTH", ctx.py, ["units"], floor=28)
+    from .. import lints
+    lints.run(ctx, "C05", ctx.py, ["units"], truth_floor=28)
     ctx.assume("value-level correctness of operand order and sign in reflected operators (v - self vs self - v) and "
                "floating-point exactness are not decided")
